@@ -62,7 +62,12 @@ func (m *MultiTCPMuxDefault) GetAllConns(ufrag string, isIPv6 bool, local net.IP
 	for _, mux := range m.muxes {
 		conn, err := mux.GetConnByUfrag(ufrag, isIPv6, local)
 		if err != nil {
-			// For now, this implementation is all or none.
+			// For now, this implementation is all or none: release the
+			// references already taken from the earlier muxes.
+			for _, c := range conns {
+				_ = c.Close()
+			}
+
 			return nil, err
 		}
 		if conn != nil {
